@@ -33,13 +33,13 @@ def Cfg.Valid (c : Cfg) (is2d : Bool) : Bool :=
 
 /-- `validate_compression_settings` on a resolved (rate, blockshape) -/
 def validate (r : Q) (b0 b1 b2 : Int) (is2d : Bool) : Except Err Cfg :=
-  -- rate ∈ {1/4 … 32}: 4·num = q·den for one of the eight q
-  match [1, 2, 4, 8, 16, 32, 64, 128].find? (fun q : Nat => 4 * r.num == (q : Int) * r.den) with
-  | none => .error .value
-  | some q =>
-    if b0 < 1 || b1 < 1 || b2 < 1 then .error .value else
-    let c : Cfg := { q := q, b0 := b0.toNat, b1 := b1.toNat, b2 := b2.toNat }
-    if c.Valid is2d then .ok c else .error .value
+  -- rate ∈ {1/4 … 32}: 4·rate is one of 1,2,4,…,128
+  if r.num ≤ 0 || (4 * r.num) % (r.den : Int) != 0 then .error .value else
+  let q := (4 * r.num / (r.den : Int)).toNat
+  if !validRateQ q then .error .value else
+  if b0 < 1 || b1 < 1 || b2 < 1 then .error .value else
+  let c : Cfg := { q := q, b0 := b0.toNat, b1 := b1.toNat, b2 := b2.toNat }
+  if c.Valid is2d then .ok c else .error .value
 
 /-- `32768 // (x·y·bpv)` then `int(...)` -/
 def freeDim (r : Q) (x y : Int) : Except Err Int :=
